@@ -178,12 +178,40 @@ def run(tier):
             same = 'base=index' if re.search(r'\[(\w+)\+\1', a_) else 'base,index'
             note('spell:att-grid:%s' % same, b2, '%r assembles to %s but its AT&T spelling %r to %s' % (a_, ('an exception' if cx == ('E',) else list(cx)[:4]), b2, ('an exception' if cy == ('E',) else list(cy)[:4])))
     chk.cov['att_grid_pairs'] = len(gp)
+    # x87: EVERY usable base string (not one per class) in both spellings — operand sizes and the st / st(i) forms live in the mnemonic
+    # suffix and in the fsub/fdiv reversal, so each AT&T mnemonic spelling is its own class
+    xs = [x for x in ctx.base if x['name'].startswith('f')]
+    xres = ctx.asm([q for x in xs for q in (('i', x['intel']), ('a', x['att']))])
+    for k, x in enumerate(xs):
+        a_, b2 = xres[2 * k], xres[2 * k + 1]
+        ca = ('E',) if isinstance(a_, tuple) else tuple(sorted(set(a_))); cb = ('E',) if isinstance(b2, tuple) else tuple(sorted(set(b2)))
+        if ca == ('E',) or not ca: continue
+        ncmp += 1
+        if ca != cb:
+            note('spell:att-x87:%s:%s' % (x['att'].split()[0], asmcheck.features(x)), x['att'], '%r assembles to %s but its AT&T spelling %r to %s' % (x['intel'], list(ca)[:4], x['att'], ('an exception' if cb == ('E',) else list(cb)[:4])))
+    chk.cov['x87_pairs'] = len(xs)
+    # hand-written AT&T x87 register arithmetic (the fsub/fdiv reversal of the AT&T dialect included): the encoding GNU as gives the line must
+    # be among the candidates — GNU as is the oracle of what the AT&T spelling denotes, independently of the library's own renderer
+    import gas
+    gl = []
+    for op in ('fadd', 'fsub', 'fsubr', 'fmul', 'fdiv', 'fdivr'):
+        for i_ in range(8): gl += ['%s %%st(%d), %%st' % (op, i_), '%s %%st, %%st(%d)' % (op, i_)]
+    for op in ('faddp', 'fsubp', 'fsubrp', 'fmulp', 'fdivp', 'fdivrp'):
+        for i_ in range(1, 8): gl.append('%s %%st, %%st(%d)' % (op, i_))
+    gref = gas.assemble(gl, 'att', chk.work, 'c19x87'); gimp = ctx.asm([('a', l) for l in gl])
+    for l, g, r in zip(gl, gref, gimp):
+        if g[0] != 'ok': continue
+        ncmp += 1
+        cs = [] if isinstance(r, tuple) else list(r)
+        if g[1] not in cs:
+            note('spell:att-x87-gas:%s' % l.split()[0], l, 'GNU as encodes the AT&T line %r as %s; the assembler returns %s' % (l, g[1], ('an exception' if isinstance(r, tuple) else cs[:4])))
+    chk.cov['x87_gas_lines'] = len(gl)
     chk.cov['operand_algebra_correspondence_cases'] = ntie
     chk.cov['evaluations'] = len(lines) + ntie; chk.cov['spelling_pairs_compared'] = ncmp; chk.cov['base_lines'] = len(sel)
     chk.cov['distinct_nontrivial'] = ncmp; chk.cov['traces_validated_against_impl'] = len(lines)
     asmcheck.report(chk, bad)
     chk.cov['rule'] = ('%d base string(s) per (mnemonic, feature) class; Intel rendering vs its respellings: register case, keyword case, spacing, hex / HEX / decimal numbers, -1 vs 0xFFFFFFFF at 32 bits, '
-                       '[b+i*s] vs [i*s+b], [r+d] vs [d+r] vs d[r], st vs st(0), optional %% before registers, AT&T transliteration (the library rendering), and a grid of Intel / AT&T spellings of [base+index*scale+disp] over 7 x 7 registers (base = index included) x 4 scales x 4 displacements; candidate SETS must be equal; each line also assembled in reverse process order. '
+                       '[b+i*s] vs [i*s+b], [r+d] vs [d+r] vs d[r], st vs st(0), optional %% before registers, AT&T transliteration (the library rendering), and a grid of Intel / AT&T spellings of [base+index*scale+disp] over 7 x 7 registers (base = index included) x 4 scales x 4 displacements, and every usable x87 base string in both spellings; candidate SETS must be equal; hand-written AT&T x87 register arithmetic must contain the encoding GNU as gives the line; each line also assembled in reverse process order. '
                        'Non-trivial = compared pair') % per
     chk.cov['samples'] = [dict(kind=k, line=t) for (x, k, t) in meta[::max(1, len(meta) // 6)][:6]]
     return chk.finish(assumptions=['the AT&T transliteration of a line is the library AT&T rendering of the same decoded instruction (validated by C09)'])
